@@ -159,7 +159,7 @@ func Main(t *testing.T, props map[string]Prop) {
 		res := runOne(t, p, ReplayTape(v.Tape), v.Seed, true)
 		c, k := failKey(res.Failures)
 		rep := map[string]interface{}{"replayed": true, "clause": c, "key": k, "trace_hash": fmt.Sprintf("%016x", res.TraceHash),
-			"events": renderLog(res.Log, 5000), "failures": res.Failures}
+			"events": renderLog(res.Log, envInt("SIM_LOG_MAX", 5000)), "failures": res.Failures}
 		enc.Encode(rep)
 		return
 	}
@@ -258,6 +258,17 @@ func hexSet(m map[uint64]bool) []string {
 
 func renderLog(log []Event, max int) []string {
 	var out []string
+	if len(log) > max {
+		// keep what a reader needs first: drop pure timer wake-ups before cutting the head
+		var kept []Event
+		for _, e := range log {
+			if e.Kind == "sleep" && e.Detail == "" {
+				continue
+			}
+			kept = append(kept, e)
+		}
+		log = kept
+	}
 	if len(log) > max {
 		out = append(out, fmt.Sprintf("... %d earlier events omitted ...", len(log)-max))
 		log = log[len(log)-max:]
@@ -387,7 +398,7 @@ func minimise(t *testing.T, p Prop, name string, res Result, idx int, pet func()
 	}
 	return Violation{Property: name, Clause: clause, Key: key, Msg: msg, Seed: res.Seed, RunIndex: idx, Mode: Mode(),
 		Tape: best, OrigTape: len(res.Tape), Labels: final.Labels, TraceHash: fmt.Sprintf("%016x", final.TraceHash),
-		Events: renderLog(final.Log, 300), ShrinkRuns: runs, Case: final.Sample}
+		Events: renderLog(final.Log, 1500), ShrinkRuns: runs, Case: final.Sample}
 }
 
 func trimZeros(v []uint32) []uint32 {
